@@ -368,6 +368,19 @@ def exclusion_expr(fs):
 
 
 # ---------------------------------------------------------------------------------- one job
+def run_native_test(build, job, rec):
+    """translator validation helpers (model vs real libc / real function); never the deciding step."""
+    exe = os.path.join(build.scratch, "native_" + job["name"])
+    t0 = time.time()
+    r = sh(["gcc", "-O1", "-w", "-o", exe] + build.cflags("ndebug", False) + list(job.get("defs", [])) + [os.path.join(HARN, job["src"])] + [os.path.join(LIB, u + ".c") for u in job.get("native_units", [])] + ["-lm"])
+    if r.returncode != 0:
+        rec.update(status="broken", reason="native test compile failed: " + r.stdout[-800:])
+        return rec
+    p = sh([exe, os.environ.get("VERIF_SEED", "0") or "0"], timeout=600)
+    rec.update(wall_s=round(time.time() - t0, 2), status="native_ok" if p.returncode == 0 else "broken", reason=p.stdout.strip()[-400:], n_props=0)
+    return rec
+
+
 def run_job(build, pid, job, tier_caps, findings):
     """returns a record dict; record['status'] in held|violation|known|undecided|broken|witness_ok|witness_vacuous"""
     name = job["name"]
@@ -375,6 +388,8 @@ def run_job(build, pid, job, tier_caps, findings):
            "core": job.get("core", True), "bound": job.get("bound", ""), "mem_class": job.get("mem", "S")}
     slots, mem_gb = MEMCLASS[job.get("mem", "S")]
     timeout = job.get("timeout", tier_caps)
+    if job.get("native_test"):
+        return run_native_test(build, job, rec)
     excluded = []
     known_lines = []
     got = SLOTS.acquire(slots)
